@@ -389,7 +389,7 @@ func genProgram(rng *rand.Rand, sh *model.Frame) []*instr {
 			in.kind = "const"
 			in.out = outs[rng.Intn(4)]
 			in.cI = []int{0, 1, -5, 42}[rng.Intn(4)]
-			in.cF = []float64{0, 1.5, -2.25, math.NaN(), math.Inf(1)}[rng.Intn(5)]
+			in.cF = []float64{0, 1.5, -2.25, math.NaN(), math.Inf(1), math.Copysign(0, -1), model.NaNPayload}[rng.Intn(7)]
 			in.cB = rng.Intn(2) == 0
 			switch rng.Intn(4) {
 			case 0:
@@ -510,6 +510,32 @@ func runC06(c *fw.Case) {
 	all := seqRange(0, n)
 	nonIdent := root.Shape != "identity"
 
+	// results of plain Apply calls are kept and observed a second time after all later calls on the same
+	// receiver ("all other columns stay as they were" must not depend on what is derived next from the receiver)
+	type heldRes struct {
+		res  qframe.QFrame
+		want *model.Frame
+		desc string
+	}
+	var held []heldRes
+	defer func() {
+		if c.Failed() {
+			return
+		}
+		for _, h := range held {
+			c.Eval(1)
+			c.Count("delayed_reobservations", 1)
+			got, oerr := model.ObserveGuard(h.res)
+			if oerr != nil {
+				c.Fail("observe:delayed", "%s: second observation: %v", h.desc, oerr)
+				return
+			}
+			if d := model.Diff(h.want, got); d != "" {
+				c.Fail("differs:delayed", "result of %s on frame (index %s, %d rows) was correct when returned but differs after later Apply/FilteredApply/WithRowNums calls on the same receiver: %s", h.desc, root.Shape, n, d)
+				return
+			}
+		}
+	}()
 	for k := 0; k < 3; k++ {
 		prog := genProgram(rng, sh)
 		ptxt := progString(prog)
@@ -599,6 +625,9 @@ func runC06(c *fw.Case) {
 				}
 				c.Fail(c06Key(mode, prog, want, got), "%s on frame (index %s, %d rows): %s", desc, root.Shape, n, d)
 				return
+			}
+			if clause == nil {
+				held = append(held, heldRes{res, want, desc})
 			}
 			for i, in := range prog {
 				if in.kind == "f0" || in.kind == "f1" || in.kind == "f2" {
